@@ -42,6 +42,9 @@ func propC17(c *Ctx, r *Report) {
 	r.Clauses = append(r.Clauses, "binding attributes reach every backend (E44): each field of ir.BuiltinBinding / LocationBinding / Interpolation / ResourceBinding is read somewhere in each of the SPIR-V, HLSL, MSL and GLSL backends")
 	c.runBindingFieldRead(r, "binding.fieldread", []string{"spirv", "hlsl", "msl", "glsl"}, nil)
 	r.floor("binding.fieldread", 30)
+	r.Clauses = append(r.Clauses, silentDefaultClause)
+	c.runSilentDefault(r, "eval.silentdefault", "wgsl/internal/lower", nil)
+	r.floor("eval.silentdefault", 6)
 	r.Clauses = append(r.Clauses, builtinDirClause)
 	c.runBuiltinDirection(r, "builtin.direction", inPkgs("spirv", "hlsl", "msl", "glsl", "dxil"))
 	r.floor("builtin.direction", 2)
@@ -67,3 +70,5 @@ func propC17(c *Ctx, r *Report) {
 const accumClause = "order-independent accumulation (E29): a variable created lazily (`if v == nil { v = ... }`) inside a loop over attributes / items collects fields from several iterations; no other assignment inside that loop replaces it unconditionally, so @interpolate / @blend_src / @binding survive whatever order the attributes are written in"
 
 const builtinDirClause = "two-way built-ins (E59): a function that names built-in values for a target and is told the direction (a bool next to the ir.BuiltinValue) consults it in the arms for position and sample_mask - the two WGSL built-ins that are an input at one stage position and an output at another - whenever it consults it for any built-in at all"
+
+const silentDefaultClause = "no silent default (E72): where the lowerer evaluates a piece of source syntax (a function taking a parser.Expr and answering (value, ok)) and uses the value only when ok, there is an else branch, or the same syntax is afterwards handed to another function (a fallback) - otherwise what the source says is silently replaced by the default"
